@@ -93,7 +93,7 @@ func main() {
 
 func needs(src []byte) bool {
 	s := string(src)
-	for _, k := range []string{"func (o *Array) IndexSet", "func builtinSplice(", "sync.Mutex", "sync.RWMutex", "\"sync/atomic\"", "go func", "\tgo ", "chan ", "select {", "*Compiled)", "v.globals["} {
+	for _, k := range []string{"func (o *Array) IndexSet", "func builtinSplice(", "sync.Mutex", "sync.RWMutex", "sync.Pool", "\"sync/atomic\"", "go func", "\tgo ", "chan ", "select {", "*Compiled)", "v.globals["} {
 		if strings.Contains(s, k) {
 			return true
 		}
@@ -134,14 +134,14 @@ func rewrite(name string, src []byte) ([]byte, bool, error) {
 			if id, ok := x.X.(*ast.Ident); ok {
 				if id.Name == "sync" {
 					switch x.Sel.Name {
-					case "Mutex", "RWMutex":
+					case "Mutex", "RWMutex", "Pool":
 						id.Name = "vsched"
 						r.changed = true
 					case "Cond", "WaitGroup":
 						incomplete = append(incomplete, name+": sync."+x.Sel.Name+" is not modelled")
 						usesSyncOther = true
 					default:
-						usesSyncOther = true // Pool, Once: not concurrency-relevant to the properties
+						usesSyncOther = true // Once, Map, ...: not used by the code under test
 					}
 				}
 				if id.Name == "atomic" {
